@@ -75,9 +75,11 @@ Lemma lib_parent_node_output_eq l r key fl p : length l = 32%nat -> length r = 3
 Proof. intros Hl Hr. destruct_list l 32. destruct_list r 32. split; reflexivity. Qed.
 
 (* ---------- Hasher::new_internal (the result of Platform::detect() is a parameter) ---------- *)
+(* the translation keeps an ArrayVec in index order (Base/ArrayVec.v: the last pushed element last), the model keeps
+   the stack with its top at the head: hence `rev` *)
 Definition hasher_of_lib (h : lib_Hasher) : hasher :=
   mkHasher (lib_Hasher_key h) (cs_of_lib (lib_Hasher_chunk_state h)) (lib_Hasher_initial_chunk_counter h)
-           (lib_Hasher_cv_stack h).
+           (rev (lib_Hasher_cv_stack h)).
 
 Lemma lib_Hasher_new_internal_eq key fl p :
   hasher_of_lib (lib_Hasher_new_internal key fl p) = new_internal key fl /\
